@@ -644,3 +644,22 @@ Definition event_tm (e : event) : option tmid :=
 Definition recv_ok (cfg : config) (h : list event) : bool :=
   forallb (fun t => list_eqb msg_eqb (recvs_of t h) (expected cfg t)) (c_targets cfg)
   && forallb (fun e => match event_tm e with Some k => memz k (c_targets cfg) | None => true end) h.
+
+(** ** What C10 and C11 say about a complete observed history *)
+
+Definition no_return (h : list event) : Prop := forall e, In e h -> is_return e = false.
+Definition no_finish (i : tmid) (h : list event) : Prop := forall e, In e h -> is_finish i e = false.
+Definition quiet (i : tmid) (h : list event) : Prop :=
+  forall e, In e h -> is_finish i e = false /\ is_recv i e = false.
+
+Definition history_ok (cfg : config) (h : list event) : Prop :=
+  (* C10: every target handled exactly its expected sequence: each feature once, in source order,
+     with the geometry of its own tile matrix, nothing for a dropped feature *)
+  (forall i, In i (c_targets cfg) -> recvs_of i h = expected cfg i)
+  (* nothing was delivered to, or finished by, something that is not a target *)
+  /\ (forall e k, In e h -> event_tm e = Some k -> In k (c_targets cfg))
+  (* C11: ProcessFeatures returned exactly once and nothing happened afterwards *)
+  /\ (exists h0, h = h0 ++ [EReturn] /\ no_return h0)
+  (* C11: every target finished exactly once, after its last feature and before the return *)
+  /\ (forall i, In i (c_targets cfg) ->
+        exists a b, h = a ++ EFinish i :: b ++ [EReturn] /\ no_finish i a /\ quiet i b).
